@@ -392,6 +392,8 @@ def fetch_trace(u, gb, obligation, wd):
                     lhs = st.get("lhs", "")
                     val = st.get("value", {})
                     data_ = val.get("data", val.get("name"))
+                    if val.get("name") == "float" and val.get("binary") and val.get("width") in (32, 64):
+                        data_ = "f%d:%x" % (val["width"], int(val["binary"], 2))   # exact bits for the native replay
                     if data_ is None and "elements" in val:
                         data_ = [e.get("value", {}).get("data") for e in val["elements"]]
                     if data_ is None and "members" in val:
@@ -421,11 +423,19 @@ def native_replay(u, inputs, wd):
     if not rp:
         return None, "no native replay registered for this unit"
     exe = wd / (u.name + ".replay")
-    cfg = ROOT / "config" / (rp.get("config") or "a.native.h")
-    srcs = [str(REPO / "src" / s) for s in rp.get("sources", [])]
-    cmd = ["gcc", "-g", "-O0", "-fsanitize=address,undefined", "-fno-sanitize-recover=undefined",
-           "-I", str(REPO / "include"), "-I", str(ROOT), "-DA_EXPORTS", '-DA_HAVE_H="%s"' % cfg,
-           "-w", "-o", str(exe), str(ROOT / "replay" / rp["prog"])] + srcs + ["-lm"]
+    cfg = ROOT / "config" / (rp.get("config") or u.config or "a.native.h")
+    if rp.get("native"):
+        # the harness itself, compiled natively: same real code, same pre/postconditions, inputs by variable name
+        cmd = ["gcc", "-g", "-O0", "-fsanitize=address,undefined", "-fno-sanitize-recover=undefined", "-ffp-contract=off",
+               "-I", str(REPO / "include"), "-I", str(REPO), "-I", str(ROOT), "-DA_EXPORTS", '-DA_HAVE_H="%s"' % cfg,
+               "-DVERIF_NATIVE", "-DVERIF_ENTRY=" + u.entry, "-w", "-o", str(exe), str(ROOT / "harness" / u.harness)] + [str(REPO / "src" / x) for x in rp.get("sources", [])] + ["-lm"]
+        for d in (u.defines or []):
+            cmd.insert(1, "-D" + d)
+    else:
+        srcs = [str(REPO / "src" / s) for s in rp.get("sources", [])]
+        cmd = ["gcc", "-g", "-O0", "-fsanitize=address,undefined", "-fno-sanitize-recover=undefined",
+               "-I", str(REPO / "include"), "-I", str(ROOT), "-DA_EXPORTS", '-DA_HAVE_H="%s"' % cfg,
+               "-w", "-o", str(exe), str(ROOT / "replay" / rp["prog"])] + srcs + ["-lm"]
     for d in rp.get("defines", []):
         cmd.insert(1, "-D" + d)
     rc, out, err, t = run(cmd, 300, 16)
